@@ -25,6 +25,8 @@ class MethodMixin(object):
             return "usage"
         if t[0] == "conn":
             return "conn"
+        if t[0] == "dbcur":
+            return self.db_name(t[1])
         if t[0] == "call" and t[1] in self.repo.modules["database"].functions:
             return "conn"
         if t[0] == "param" and t[1] in ("db",):
@@ -59,6 +61,26 @@ class MethodMixin(object):
             if fi is not None and args:
                 return self.call_function(fi, args[0], args[1:], kwargs, state,
                                           frame, node)
+        if k == "dbcur":
+            dbn0 = self.db_name(recv[1])
+            if name in ("execute", "executescript") and dbn0 is not None:
+                res = self.db_call(recv[1], dbn0, name, args, kwargs, state, frame, node)
+                for (s2, v2) in res:
+                    if not isinstance(v2, Outcome) and v2[0] == "cursor":
+                        s2.heap[(recv, "#result")] = v2
+                return [(s2, recv if not isinstance(v2, Outcome) else v2) for (s2, v2) in res]
+            cur = state.heap.get((recv, "#result"))
+            if name == "fetchone" and cur is not None:
+                if not hasattr(self, "fetchone_sites"):
+                    self.fetchone_sites = set()
+                self.fetchone_sites.add(cur[1])
+                return [(state, ("row", cur[1]))]
+            if name == "fetchall" and cur is not None:
+                return [(state, ("rows", cur[1]))]
+            if name == "close":
+                return [(state, NONE)]
+            if name in ("commit", "rollback") and dbn0 is not None:
+                return self.db_call(recv[1], dbn0, name, args, kwargs, state, frame, node)
         dbn = self.db_name(recv)
         if dbn is not None and name in ("execute", "executescript", "commit",
                                         "close", "rollback", "cursor",
@@ -215,7 +237,9 @@ class MethodMixin(object):
             self.ev(state, "dbclose", frame, node, db=dbn, handle=recv)
             return [(state, NONE)]
         if name in ("cursor",):
-            return [(state, recv)]
+            # an explicit cursor object: statements run through it, and it
+            # remembers the result of the last one (state.heap[(cursor, #result)])
+            return [(state, ("dbcur", recv, site))]
         if name == "iterdump":
             return [(state, ("call", ".iterdump", (recv,), ()))]
         if name == "executescript":
